@@ -98,6 +98,20 @@ CHECKS = {
                 note="delivery schedule fixed to 'next pair when a wait blocks' (interleavings are C12); measurement_outcome compared only "
                      "where no Bell post-processing applies (C10); the R-to-qlink-1.0 conversion refusal is counted, not judged",
                 ref="3/C11"),
+    "C12": dict(cat="model_checking", tech="explicit-state exploration of all interleavings of executor instruction steps, link-layer response deliveries and retries on the real executor, canonical state hashing, per-state invariants and FIFO reference",
+                text="For nine scenarios of the shape the SDK emits (1..3 outstanding requests of 1..3 pairs; same and different sockets and "
+                     "remote nodes; create and receive roles mixed; keep and measure types; a target virtual qubit still allocated when "
+                     "its response arrives; wait_all / wait_any / wait_single) the real executor's generator is advanced one "
+                     "instruction at a time and every interleaving with response deliveries (per stream in order, receiver-side also "
+                     "before the matching instruction ran) and retries of deferred responses is explored until the state graph "
+                     "closes. Every state: no response consumed twice, each defined result slice holds exactly the response the FIFO "
+                     "reference assigns to (oldest request of the stream, pair k) and maps that request's k-th virtual qubit, queue "
+                     "bookkeeping (pairs_left vs filled slices), a keep-response never changes an allocated virtual qubit, waits "
+                     "resume only when (and as soon as) their condition holds, physical qubits injective and marked used; stuck states "
+                     "are deadlocks; at quiescence every response is stored once, queues and pending list empty, used == mapped.",
+                note="environment contract: per-stream in-order delivery; keep-responses name the lowest physical qubit not marked used at "
+                     "delivery time; scenarios are hand-written subroutines, not all programs",
+                ref="3/C12"),
     "C13": dict(cat="model_checking", tech="explicit-state BFS with exact canonical hashing over controller histories replayed on the real QNodeController/Executor, per-state invariants plus prefix-replica fault check",
                 text="Explicit-state BFS over controller histories on the real QNodeController/Executor/SharedMemoryManager, driven through the "
                      "message-level lifecycle (init/stop/subroutine bytes) and the executor's response API: init, stop, qalloc, qfree, gate, "
